@@ -198,4 +198,4 @@ def execute(scn, forced=None):
 
 TECHNIQUE = "deterministic simulation: seeded baton-passing scheduler over dask's thread pool (policies fifo/lifo/random/preempt/PCT, 1..16 workers, process-pool stub), virtual data-dependent delays, differential oracle parallel-vs-sequential per parameter label"
 LEVEL_TEXT = "seeded exploration of task schedules: each generated observation is executed sequentially and under a drawn schedule; every bucket of every labelled run must be bit-identical. A clean batch is evidence over the sampled schedules, not a proof."
-LEVEL_NOTE = "trusted: the scheduler seam (SimPool + replaced dask.local.queue_get) reproduces the decision points of dask's threaded scheduler; numpy/numba internals are atomic; process pools are a stub"
+LEVEL_NOTE = "trusted: the scheduler seam (SimPool + replaced dask.local.queue_get) reproduces the decision points of dask's threaded scheduler; numpy/numba internals are atomic; process pools are a stub. The clause on output files of a parallel observation (one-to-one with the parameter combinations) is decided by the C19 check, whose parallel starts run under the same scheduler (including runs with identical parameter values and seeded observations); swept readout times are compared on both execution paths"
